@@ -3,9 +3,10 @@
 import Driver.Common
 import GivaroModel.Model.ModRing
 import GivaroModel.Spec.ModRingSpec
--- @driver-mode modring Driver.modringLine
--- @driver-mode modinit Driver.modinitLine
-namespace Driver
+-- @driver-mode modring Driver.ModRing.modringLine
+-- @driver-mode modinit Driver.ModRing.modinitLine
+namespace Driver.ModRing
+open Driver
 open Givaro.Model.ModRing Givaro.Spec.ModRing
 
 inductive Fam where
@@ -218,10 +219,11 @@ def modringLine (line : String) : String :=
       | some f => c03Verdict f op m a.toArray res line
     | _, _ => "BAD args | " ++ line
 
-end Driver
+end Driver.ModRing
 
 /-! ### C04: init / convert / constants -/
-namespace Driver
+namespace Driver.ModRing
+open Driver
 open Givaro.Model.ModRing Givaro.Spec.ModRing
 
 /-- (lo, hi) of a source / target type tag; `none` = unbounded -/
@@ -303,4 +305,4 @@ def modinitLine (line : String) : String :=
       | some f => c04Verdict f op m a.toArray res line
     | _, _ => "BAD args | " ++ line
 
-end Driver
+end Driver.ModRing
